@@ -18,7 +18,7 @@ LEVEL_TEXT = ("Bounded symbolic model checking of NifFile::Optimize + PrettySort
               "same-target, root-first, idempotence and reload assertions are discharged for all values by z3.")
 LEVEL_NOTE = "Small graphs (<= ~20 blocks); one symbolic reference at a time; engine models as DESIGN.md 2.5."
 
-GRAPHS_Q = [(SSE, SKIN | COLL | EXTRA | LOOSE), (SSE, EXTRA | LOOSE | ROOT1 | CHILDNODE), (SK, COLL | SHAREDCOLL | EXTRA), (SK, SKIN | CTRL | SHAPE2 | CHILDNODE), (FO4, SKIN | EXTRA | LOOSE | SHAPE2), (OB, SKIN | COLL | CTRL), (FO3, EXTRA | SHAPE2 | LOOSE | CHILDNODE)]
+GRAPHS_Q = [(SSE, SKIN | COLL | EXTRA | LOOSE), (SSE, EXTRA | LOOSE | ROOT1 | CHILDNODE), (SK, COLL | SHAREDCOLL | EXTRA), (SK, SKIN | CTRL | SHAPE2 | CHILDNODE), (FO4, SKIN | EXTRA | LOOSE | SHAPE2), (OB, SKIN | COLL | CTRL), (FO3, EXTRA | SHAPE2 | LOOSE | CHILDNODE), (SSE, EXTRA | CHILD0), (FO3, SHAPE2 | CHILD0)]
 GRAPHS_T = GRAPHS_Q + [(FO76, SKIN | EXTRA | LOOSE), (SSE, SKIN | CTRL | SHAPE2 | CHILDNODE | LOOSE | EXTRA | COLL), (SK, COLL | EXTRA), (OB, SHAPE2 | LOOSE | EXTRA | CHILDNODE), (FO4, CTRL | CHILDNODE)]
 
 
